@@ -9,6 +9,13 @@
 (b) with parseinfo enabled (directive / parse-time setting), every dict-like AST and every model node in the
     result of a real parse carries a parseinfo whose (rule, pos, endpos) is a successful rule evaluation of
     REF (vt/ref.py) for that input *with an equal value*, and whose `line` is the splitter's line of `pos`.
+    A node that several rules return unchanged (`expr = sum | term ;`, `e = @:t ;`) may carry the evaluation of ANY
+    of them (the statement says "a rule that returned it"): no more, no less.
+    PASS-THROUGH / RETRY family (run_retry): chains of 1..3 rules that return the node of the next rule as their own,
+    and statements whose alternatives ask for rules of the chain again at the same offset after an earlier alternative
+    (or a lookahead, an optional, a closure) completed an outer rule over the node and then failed on its terminator,
+    so that the later request is answered from the memo.  Evidence monitor vt/monitors/c12_memo.py: action events of
+    a recording semantics object with and without memoization, against a packrat prediction over REF's call tree.
 DESIGN.md section 3/C12.
 """
 from __future__ import annotations
@@ -23,6 +30,7 @@ from .. import lang as L
 from .. import shrink as S
 from ..common import h64
 from ..monitors import c12_lines as O
+from ..monitors import c12_memo as M
 from ..ref import CL, left_recursive_rules, ref_run
 from ..tsu import StepHeart, build, gen_parser
 
@@ -36,7 +44,15 @@ RULE = ('(a) cases = (text, input implementation, offset): every string over {a,
         '@nomemo/@nostak; model, text-compiled and GENERATED-parser routes; about 55% of the cases with one more bundle of parse-time '
         'settings that only concern diagnostics or caching next to parseinfo: trace on (plain, colorized, with source names; '
         'output to a counting sink), memoization off (no left recursion), perlinememos 0.01, prune_memos_on_cut off) and hand-written typed grammars (incl. a '
-        'left-recursive cycle entered mid-text, nullable tail rules matching at end of text, decorated copies), inputs derivation-guided with leading/inter-token blanks, CR/LF/CRLF and comments; every AST/Node in the '
+        'left-recursive cycle entered mid-text, nullable tail rules matching at end of text, decorated copies), and the PASS-THROUGH / RETRY '
+        'family: leaf rules building a dict-like AST or a model node, chains of 1..3 rules that return the next rule\'s node '
+        'unchanged (single call, choice of a longer form and a call, @:call, [sign] @:call, group, parenthesised recursion), a '
+        'statement rule with 2..4 alternatives that ask for rules of the chain at one offset, each with its own terminator, '
+        'plain or behind &lookahead / !lookahead / an optional / a closure over an outer rule / a sign token, inputs derived '
+        'with a preference for the later alternatives (the earlier ones complete their rule and fail late; the later ones are '
+        'answered from the memo), x parseinfo by directive/setting x object/text/generated route x str/TextLines/Buffer x '
+        'AST/asmodel/builder x {none, memoization off, prune_memos_on_cut off, trace, perlinememos}, some rules @nomemo/@nostak; '
+        'inputs derivation-guided with leading/inter-token blanks, CR/LF/CRLF and comments; every AST/Node in the '
         'result is looked up in REF\'s table of successful rule evaluations. non-trivial = (a) a text with >=1 line break or '
         'an offset at end of text, distinct by (text, impl); (b) an accepted parse in which >=1 AST/Node parseinfo was '
         'checked, distinct by (grammar text, start, input, variant)')
@@ -61,6 +77,14 @@ ASSUMPTIONS = [
     'signature suffix only-with:<setting>',
     'ParseInfo.endline, Node.text and the parseinfo argument handed to semantic actions are not in the statement: '
     'observed and counted only',
+    'a node returned unchanged by several rules (pass-through: `e = t ;`, `e = sum | t ;`, `e = @:t ;`) may carry the '
+    '(rule, pos, endpos) of any successful REF evaluation that returned an equal value, whichever of them stamped it last and '
+    'whether or not that evaluation is part of the final derivation; anything else (in particular a span no evaluation of the '
+    'named rule has) is a violation',
+    'the memo monitor of the pass-through / retry family (vt/monitors/c12_memo.py) is evidence only: a semantics object '
+    'whose actions return the node unchanged (or delegate to ModelBuilderSemantics) records action events in two further '
+    'parses (memoization as configured / off); "answered from the memo after a relabel" is a packrat simulation over REF\'s '
+    'call tree, counted only for executions whose observed action events equal the simulated ones',
 ]
 EXHAUSTIVE = {'quick': 'all 21845 strings over {a,space,LF,CR} of length <=7 x {TextLines,Buffer} x all offsets 0..len',
               'thorough': 'all 349525 strings over {a,space,LF,CR} of length <=9 x {TextLines,Buffer} x all offsets 0..len'}
@@ -73,6 +97,8 @@ N_FAIL = {'quick': 1200, 'thorough': 24000}        # FailedParse.info probes
 N_GRAMMARS = {'quick': 6600, 'thorough': 320000}   # random grammars for (b)
 INPUTS_PER = {'quick': 6, 'thorough': 8}
 N_TYPED = {'quick': 4000, 'thorough': 192000}      # inputs over the hand-written typed grammars
+N_RETRY = {'quick': 360, 'thorough': 24000}        # grammars of the pass-through / retry family
+RETRY_INPUTS_PER = {'quick': 6, 'thorough': 8}
 
 FLOORS = {
     'quick': {'a_strings': 21845, 'a_offsets_checked': 400000, 'a_offsets:end-of-text': 22000,
@@ -121,6 +147,34 @@ FLOORS = {
                  'b_traced_nodes_of_rules_ending_in_a_call_before_blanks': 56000, 'b_trace_lines_written': 6000000,
                  'b_traced_route:generated': 28000, 'b_traced_route:text': 24000},
 }
+# pass-through / retry family (run_retry): a run that never has a relabelled node answered from the memo is inconclusive
+RETRY_FLOORS = {'b_retry_accepted': 1200,
+                'b_retry_memo_prediction_confirmed': 1200,
+                'b_retry_action_events_saved_by_memo': 12000,
+                'b_retry_executions_with_memo_answers_observed': 1000,
+                'b_retry_memo_answers_of_relabelled_nodes': 2200,
+                'b_retry_memo_answers_of_relabelled_nodes:depth1': 800,
+                'b_retry_memo_answers_of_relabelled_nodes:depth2': 750,
+                'b_retry_memo_answers_of_relabelled_nodes:depth3': 300,
+                'b_retry_memo_answers_of_relabelled_nodes_with_another_span': 90,
+                'b_retry_result_nodes_last_answered_from_memo_after_relabel': 1200,
+                'b_retry_executions_with_result_node_answered_after_relabel': 700,
+                'b_retry_result_nodes_labelled_by_a_chain_rule': 2000,
+                'b_retry_answered_after_relabel_enable:directive': 350,
+                'b_retry_answered_after_relabel_enable:setting': 320,
+                'b_retry_answered_after_relabel_impl:str': 220,
+                'b_retry_answered_after_relabel_impl:TextLines': 220,
+                'b_retry_answered_after_relabel_impl:Buffer': 220,
+                'b_retry_answered_after_relabel_mode:ast': 280,
+                'b_retry_answered_after_relabel_mode:asmodel': 70,
+                'b_retry_answered_after_relabel_mode:builder': 300,
+                'b_retry_answered_after_relabel_route:object': 450,
+                'b_retry_answered_after_relabel_route:generated': 160,
+                'b_retry_answered_after_relabel_route:text': 45,
+                'b_retry_answered_after_relabel_multiline': 450,
+                'b_retry_answered_after_relabel_cfg:none': 450}
+FLOORS['quick'].update(RETRY_FLOORS)
+FLOORS['thorough'].update({k: 50 * v for k, v in RETRY_FLOORS.items()})
 SHARD_TIMEOUT = {'quick': 600, 'thorough': 3000}
 PEAK_COUNTERS = ('b_max_rules_in_one_tree',)
 
@@ -146,11 +200,16 @@ def plan(tier, seed):
     nt = 2 if tier == 'quick' else 16
     for i in range(nt):
         shards.append({'mode': 'typed', 'seed': seed, 'shard': i, 'n': N_TYPED[tier] // nt})
+    nr = 4 if tier == 'quick' else 16
+    for i in range(nr):
+        shards.append({'mode': 'retry', 'seed': seed, 'shard': i, 'n': N_RETRY[tier] // nr,
+                       'inputs': RETRY_INPUTS_PER[tier]})
     return shards
 
 
 def run_shard(desc, acc):
-    {'exh': run_exh, 'long': run_long, 'pinfo': run_pinfo, 'typed': run_typed}[desc['mode']](desc, acc)
+    {'exh': run_exh, 'long': run_long, 'pinfo': run_pinfo, 'typed': run_typed,
+     'retry': run_retry}[desc['mode']](desc, acc)
 
 
 # =============================================================================== part (a)
@@ -815,13 +874,16 @@ class PCase:
             return {'semantics': ModelBuilderSemantics()}
         return {}
 
-    def parse(self, text, start, parseinfo=True):
+    def parse(self, text, start, parseinfo=True, override=None):
         from tatsu.exceptions import FailedParse
         kw = dict(self.kw)
         if not parseinfo:
             kw['parseinfo'] = False
         kw.update(self.sem_kw())
         kw.update(EXTRAS[self.v.extra])
+        if override:
+            kw.pop('asmodel', None)
+            kw.update(override)
         n = S.gsize(self.g)
         heart = StepHeart(5000 + 60 * n * n * (len(text) + 1) * (len(text) + 1))
         sink, old = None, sys.stderr
@@ -849,8 +911,9 @@ class PCase:
         return ref_run(self.g, text, start, max_steps=30000, action=action)
 
 
-def check_pcase(acc, pc: PCase, start, text, origin, shrink=True):
-    """one execution with parseinfo on; returns the set of violation sig-parts"""
+def check_pcase(acc, pc: PCase, start, text, origin, shrink=True, out=None):
+    """one execution with parseinfo on; returns the set of violation sig-parts
+    out: optional dict that receives {'accepted': True, 'result': ..., 'nodes': n} for a judged execution"""
     v = pc.v
     a, r = pc.ref(text, start)
     acc.evaluations += 1
@@ -905,6 +968,8 @@ def check_pcase(acc, pc: PCase, start, text, origin, shrink=True):
         return set()
     acc.count('b_accepted')
     problems, st = judge_tree(res, r, text, value_sensitive, pc.uncached, pc.calltail)
+    if out is not None:
+        out.update(accepted=True, result=res, nodes=st['nodes'], problems=len(problems))
     acc.count('b_nodes_checked', st['nodes'])
     acc.count('b_nodes_ending_before_blanks', st['before_blanks'])
     acc.count('b_nodes_of_rules_ending_in_a_call_before_blanks', st['calltail_before_blanks'])
@@ -1268,6 +1333,295 @@ def run_typed(desc, acc):
                         'input': text})
 
 
+# ---- pass-through / retry family: nodes that travel unchanged through chains of rules, asked for again after a
+#      failed alternative (or after a lookahead) and answered from the memo
+RETRY_TERMS = [';', '.', '!', '?', ':']
+RETRY_PATS = {r'\d+': ['1', '22', '305', '7'], r'[a-z]+': ['a', 'bc', 'xyz', 'q']}
+RETRY_SEPS = ['', ' ', ' ', '\n', '\r\n', '\r', '  ', '\n\n', ' \n ']
+RETRY_EXTRA_DRAW = (['none'] * 12 + ['memo_off'] * 2 + ['noprune'] * 2 + ['trace'] * 2 + ['trace_color'] + ['plm'])
+RETRY_FORMS = ('call', 'call', 'choice-long', 'choice-long', 'over', 'sign-over', 'group', 'choice-leaf', 'paren')
+RETRY_ASKS = ('plain', 'plain', 'plain', 'la', 'la-seq', 'nla', 'opt', 'clo')
+
+
+def retry_case(rng, i):
+    r"""-> (grammar, variant, info)   info: {'chain': [outermost..innermost pass-through rule], 'depth': its length}
+
+    leaf      a rule that builds a dict-like AST / a model node:       num = v:/\d+/ ;   num::Num = /\d+/ ;
+    chain     1..3 rules that return the node of the next rule (or of the leaf) as their own value:
+              e = t ;   e = sum | t ;   e = @:t ;   e = ['-'] @:t ;   e = (t) ;   e = t | word ;   e = '(' @:e0 ')' | t ;
+    stmt      2..4 alternatives at one position that ask for rules of the chain (usually outermost first), each followed
+              by its own terminator, also behind &lookahead, !lookahead, an optional or a closure over an outer rule:
+              stmt = e ';' | t '.' | num '!' ;   stmt = &e t '.' | ... ;   stmt = [e ';'] t '.' ;   stmt = {e ','} t '.' ;
+              stmt = e ';' | '-' t '.' ;  (e = ['-'] @:t : the node of t comes back with the span of e, sign included)
+    start     {stmt}+ $  (plain, named list, or a single statement)"""
+    N, C, T, P, Sq, Ch = L.Named, L.Call, L.Tok, L.Pat, L.Seq, L.Choice
+    mode = ('ast', 'asmodel', 'builder', 'ast', 'builder')[i % 5]
+    route = 'generated' if i % 4 == 2 else 'text' if i % 9 == 0 else 'object'
+    if route == 'generated' and mode == 'asmodel':
+        mode = 'builder'
+    typed = mode != 'ast'
+    rules = []
+    # leaves
+    if typed and rng.random() < 0.3:
+        leaf = L.Rule('num', P(r'\d+'), params=('Num',))                 # a model node over a plain value
+    else:
+        leaf = L.Rule('num', N('v', P(r'\d+')), params=('Num',) if typed and rng.random() < 0.75 else ())
+    word = L.Rule('word', N('n', P(r'[a-z]+')), params=('Word',) if typed and rng.random() < 0.5 else ())
+    k = rng.choice([1, 1, 2, 2, 3])
+    chain = ['expr', 'term', 'atom'][:k]
+    ops = ['+', '*', '^']
+    need_word = False
+    longs = []
+    for j, name in enumerate(chain):
+        inner = chain[j + 1] if j + 1 < k else 'num'
+        form = rng.choice(RETRY_FORMS)
+        if form == 'call':
+            body = C(inner)
+        elif form == 'choice-long':
+            ln = ('sum', 'prod', 'power')[j]
+            longs.append(L.Rule(ln, Sq((N('l', C(inner)), T(ops[j]), N('r', C(name)))),
+                                params=(ln.capitalize(),) if typed and rng.random() < 0.6 else ()))
+            body = Ch((C(ln), C(inner)))
+        elif form == 'over':
+            body = L.Over(C(inner))
+        elif form == 'sign-over':
+            body = Sq((L.Opt(T('-')), L.Over(C(inner))))
+        elif form == 'group':
+            body = L.Group(C(inner))
+        elif form == 'choice-leaf':
+            need_word = True
+            body = Ch((C(inner), C('word')))
+        else:
+            body = Ch((Sq((T('('), L.Over(C(chain[0])), T(')'))), C(inner)))
+        # a typed chain rule wraps the node in a node of its own (no pass-through there): rare, as a control
+        rules.append(L.Rule(name, body, params=(name.capitalize(),) if typed and rng.random() < 0.06 else ()))
+    signed = [name for name, r in zip(chain, rules) if isinstance(r.body, L.Seq) and isinstance(r.body.items[0], L.Opt)]
+    askable = chain + ['num']
+    nalt = rng.choice([2, 2, 3, 3, 4])
+    if rng.random() < 0.7:
+        # outermost first: the earlier alternatives complete the pass-through rules and fail on the terminator
+        idx = sorted(rng.choice(range(len(askable))) for _ in range(nalt))
+        if idx[0] == idx[-1] and len(askable) > 1:
+            idx[0], idx[-1] = 0, len(askable) - 1
+        asked = [askable[x] for x in idx]
+    else:
+        asked = [rng.choice(askable) for _ in range(nalt)]
+    terms = rng.sample(RETRY_TERMS, nalt)
+    named_stmt = rng.random() < 0.4
+    alts = []
+    for a, (r, t) in enumerate(zip(asked, terms)):
+        ask = rng.choice(RETRY_ASKS)
+        if a and signed and r not in signed[:1] and rng.random() < 0.5:
+            ask = 'sign'      # the sign taken here, then a rule further in: asked at the offset after the sign
+        outer = rng.choice(askable[:askable.index(r) + 1])     # r itself or a rule further out
+        other = rng.choice([x for x in RETRY_TERMS if x != t])
+        core = N('x', C(r)) if named_stmt else C(r)
+        if ask == 'plain':
+            items = (core, T(t))
+        elif ask == 'sign':
+            items = (T('-'), core, T(t))
+        elif ask == 'la':
+            items = (L.LA(C(outer)), core, T(t))
+        elif ask == 'la-seq':
+            items = (L.LA(Sq((C(outer), T(t)))), core, T(t))
+        elif ask == 'nla':
+            items = (L.NLA(Sq((C(outer), T(other)))), core, T(t))
+        elif ask == 'opt':
+            items = (L.Opt(Sq((C(outer), T(other)))), core, T(t))
+        else:
+            items = (L.Clo(Sq((C(outer), T(',')))), core, T(t))
+        alts.append(Sq(items))
+    stmt = L.Rule('stmt', Ch(tuple(alts)), params=('Stmt',) if typed and named_stmt and rng.random() < 0.5 else ())
+    sk = rng.random()
+    if sk < 0.45:
+        sbody = Sq((L.PClo(C('stmt')), L.EOF()))
+    elif sk < 0.85:
+        sbody = Sq((N('ss', L.PClo(C('stmt'))), L.EOF()))
+    else:
+        sbody = Sq((C('stmt'), L.EOF()))
+    start = L.Rule('start', sbody, params=('Prog',) if typed and 0.45 <= sk < 0.85 and rng.random() < 0.4 else ())
+    rules = [start, stmt] + rules + longs + [leaf] + ([word] if need_word else [])
+    if rng.random() < 0.12:
+        # @nomemo on some rules (those are never answered from the memo), @nostak changes nothing here
+        rules = [L.Rule(r.name, r.body, rng.choice([('nomemo',), ('nostak',)]), r.params) if rng.random() < 0.35 else r
+                 for r in rules]
+    directives = {}
+    if rng.random() < 0.15:
+        directives['eol_comments'] = '#[^\\n\\r]*'
+    g = L.Grammar(rules, directives)
+    variant = Variant(enable=('directive', 'setting')[(i // 2) % 2], route=route,
+                      impl=('str', 'Buffer', 'TextLines')[i % 3], mode=mode)
+    return g, variant, {'chain': chain, 'depth': k}
+
+
+def retry_tokens(rng, g, e, depth=0, late=True):
+    """token list of a text the expression probably accepts; `late`: in a choice of statement alternatives prefer
+    the later ones, so that the earlier ones complete their rule and fail on the terminator"""
+    d = depth + 1
+    if isinstance(e, L.Tok):
+        return [e.s]
+    if isinstance(e, L.Pat):
+        return [rng.choice(RETRY_PATS[e.rx])]
+    if isinstance(e, L.Call):
+        r = g.rule(e.name)
+        return retry_tokens(rng, g, r.body, d, late=(e.name == 'stmt'))
+    if isinstance(e, L.Seq):
+        return [t for x in e.items for t in retry_tokens(rng, g, x, d, False)]
+    if isinstance(e, L.Choice):
+        n = len(e.opts)
+        if depth > 7:
+            o = e.opts[-1]
+        elif late:
+            o = rng.choices(e.opts, weights=[1 + 2 * j for j in range(n)])[0]
+        else:
+            o = e.opts[-1] if rng.random() < 0.6 else rng.choice(e.opts)
+        return retry_tokens(rng, g, o, d, False)
+    if isinstance(e, (L.Group, L.Named, L.NamedList, L.Over)):
+        return retry_tokens(rng, g, e.e, d, False)
+    if isinstance(e, L.Opt):
+        return retry_tokens(rng, g, e.e, d, False) if depth < 7 and rng.random() < 0.4 else []
+    if isinstance(e, (L.Clo, L.PClo)):
+        n = rng.choice([0, 0, 1, 2]) if isinstance(e, L.Clo) else rng.choice([1, 1, 2, 3, 4])
+        if depth > 7:
+            n = min(n, 1)
+        return [t for _ in range(n) for t in retry_tokens(rng, g, e.e, d, False)]
+    return []        # lookaheads, $ : no text of their own
+
+
+def retry_text(rng, g, start):
+    toks = retry_tokens(rng, g, L.Call(start))
+    comments = 'eol_comments' in g.directives
+    seps = RETRY_SEPS + ([' # c\n', '#x\r\n'] if comments else [])
+    style = rng.random()
+    out = [rng.choice(seps)] if rng.random() < 0.35 else []
+    for a, t in enumerate(toks):
+        out.append(t)
+        nxt = toks[a + 1] if a + 1 < len(toks) else ''
+        if style < 0.15:
+            sep = ''
+        elif style < 0.3:
+            sep = ' '
+        else:
+            sep = rng.choice(seps)
+        if not sep and t[-1:].isalnum() and nxt[:1].isalnum():
+            sep = ' '
+        out.append(sep)
+    text = ''.join(out)
+    if rng.random() < 0.4:
+        text = text.rstrip()
+    if rng.random() < 0.12:
+        text = G.mutate(rng, text, '12a;.!?:+-( \n')
+    return text
+
+
+def retry_evidence(acc, pc, start, text, info, out):
+    """evidence only (never a violation): how often the memo answered, for which nodes, and whether the action events
+    seen at the boundary agree with the packrat prediction over REF's call tree (vt/monitors/c12_memo.py)"""
+    v = pc.v
+    memo_on = EXTRAS[v.extra].get('memoization', True)
+    action = ref_action if v.mode != 'ast' else None
+    tr = M.tree_run(pc.g, text, start, action=action)
+    if tr is None:
+        acc.count('b_retry_memo_unpredicted')
+        return
+    names = [r.name for r in pc.g.rules]
+    memoizable = {r.name for r in pc.g.rules if 'nomemo' not in r.decorators}
+    pred = M.predict(tr.tree, memoizable, memo_on=memo_on)
+
+    def observed(memoization):
+        inner = None
+        if v.mode != 'ast':
+            from tatsu.objectmodel import ModelBuilderSemantics
+            inner = ModelBuilderSemantics()
+        rec = M.Recorder(names, inner)
+        ov = {'semantics': rec}
+        if not memoization:
+            ov['memoization'] = False
+        tag, _res = pc.parse(text, start, override=ov)
+        c = rec.counts() if tag == 'ok' else None
+        rec.events = []
+        return c
+
+    on = observed(memo_on)
+    off = observed(False)
+    if on is None or off is None:
+        acc.count('b_retry_memo_unobserved')
+        return
+    acc.count('b_retry_memo_observed_executions')
+    saved = sum((off - on).values())
+    acc.count('b_retry_action_events_with_memo', sum(on.values()))
+    acc.count('b_retry_action_events_without_memo', sum(off.values()))
+    acc.count('b_retry_action_events_saved_by_memo', saved)
+    if saved:
+        acc.count('b_retry_executions_with_memo_answers_observed')
+    if off != pred['all']:
+        acc.count('b_retry_action_events_without_memo_differ_from_ref')
+        return
+    if on != pred['computed']:
+        acc.count('b_retry_memo_prediction_not_confirmed')
+        acc.count('b_retry_memo_prediction_not_confirmed:' + v.extra)
+        return
+    acc.count('b_retry_memo_prediction_confirmed')
+    ans = [a for a in pred['answers'] if a['node']]
+    rel = [a for a in ans if a['relabelled']]
+    acc.count('b_retry_memo_answers', len(pred['answers']))
+    acc.count('b_retry_memo_answers_failed', pred['failed_answers'])
+    acc.count('b_retry_memo_answers_of_nodes', len(ans))
+    acc.count('b_retry_memo_answers_of_relabelled_nodes', len(rel))
+    acc.count('b_retry_memo_answers_of_relabelled_nodes_with_another_span', sum(a['span_differs'] for a in rel))
+    for a in rel:
+        acc.count(f'b_retry_memo_answers_of_relabelled_nodes:depth{min(a["depth"], 3)}')
+    n = pred['result_nodes_last_answered_relabelled']
+    acc.count('b_retry_result_nodes_passed_through', pred['result_nodes_passed_through'])
+    acc.count('b_retry_result_nodes_last_answered_from_memo_after_relabel', n)
+    if n:
+        acc.count('b_retry_executions_with_result_node_answered_after_relabel')
+        for key in ('enable:' + v.enable, 'impl:' + v.impl, 'route:' + v.route, 'mode:' + v.mode, 'cfg:' + v.extra):
+            acc.count('b_retry_answered_after_relabel_' + key)
+        if any(ch in text for ch in '\n\r'):
+            acc.count('b_retry_answered_after_relabel_multiline')
+    # observed on the judged result itself: nodes that carry the name of a pass-through rule
+    nodes = []
+    walk_real(out['result'], nodes)
+    chain = set(info['chain'])
+    lab = 0
+    for _kind, x in nodes:
+        try:
+            if x.parseinfo is not None and x.parseinfo.rule in chain:
+                lab += 1
+        except Exception:  # noqa: BLE001
+            pass
+    acc.count('b_retry_result_nodes_labelled_by_a_chain_rule', lab)
+
+
+def run_retry(desc, acc):
+    for i in range(desc['n']):
+        rng = random.Random(h64('C12', 'retry', desc['seed'], desc['shard'], i))
+        g, variant, info = retry_case(rng, i)
+        variant.extra = rng.choice(RETRY_EXTRA_DRAW)
+        pc = PCase(g, variant, text_syntax_alt=bool(i % 2))
+        if pc.model is None:
+            acc.count('b_build_failed')
+            acc.note(f'b-retry: model build failed ({variant.route}): {pc.build_error[0]}')
+            continue
+        acc.count('b_retry_grammars')
+        acc.count(f'b_retry_chain_depth:{info["depth"]}')
+        texts = []
+        for _ in range(desc['inputs']):
+            start = 'start' if rng.random() < 0.85 else 'stmt'
+            text = retry_text(rng, g, start)
+            texts.append(text)
+            out = {}
+            acc.count('b_retry_cases')
+            check_pcase(acc, pc, start, text, {'mode': 'retry', 'shard': desc['shard'], 'i': i}, out=out)
+            if out.get('accepted') and out['nodes']:
+                acc.count('b_retry_accepted')
+                acc.count('b_retry_accepted_cfg:' + variant.extra)
+                retry_evidence(acc, pc, start, text, info, out)
+        if i == 0 and desc['shard'] == 0:
+            acc.sample({'part': 'b-retry', 'grammar': pc.src, 'variant': variant.json(), 'inputs': texts})
+
+
 # =============================================================================== replay
 def replay(w, acc):
     part = w.get('part')
@@ -1297,7 +1651,8 @@ MANIFEST = {
                   'up to 2000 chars mix the three conventions; FailedParse.info is compared with the splitter at FailedParse.pos. '
                   '(b) random and hand-written grammars are parsed by the real engine with parseinfo on (directive and setting, '
                   'text, object and generated-parser route, @nomemo/@nostak rules, str/TextLines/Buffer input, plain ASTs and model nodes, '
-                  'alone or together with trace / colorize / trace_filename / memoization off / perlinememos / prune_memos_on_cut) and every AST/Node found in the '
+                  'alone or together with trace / colorize / trace_filename / memoization off / perlinememos / prune_memos_on_cut; incl. a family of '
+                  'pass-through rule chains whose nodes are asked for again from the memo after a failed alternative or a lookahead) and every AST/Node found in the '
                   'result must carry a parseinfo that names a successful REF evaluation (rule, start after leading whitespace, end, '
                   'equal value) and the splitter\'s line of its start. exploration is the right level: the grammar x input space '
                   'is unbounded; the finite slice of (a) is exhaustive',
